@@ -92,6 +92,22 @@ def t_apptitle(ctx, rng):
     raw = bytes(t)
     back = AppTitle.from_bytes(raw)
     check(ctx, 'apptitle-roundtrip', case, back == t and len(raw) == 0x200, repr(t), repr(back), 'AppTitle parse(serialise(v)) != v')
+    # the Coq model of from_bytes / __bytes__ (Model/AppTitle.v, round trip proved) on the same bytes, and on damaged ones
+    for variant in (raw, raw[:rng.randrange(0, 0x200)] if rng.random() < 0.3 else raw[:0x7E] + b'\x00\xd8' + raw[0x80:] if rng.random() < 0.5 else raw[:0x40] + b'\x00\xdc\x41\x00' + raw[0x44:]):
+        out = model('codec apptitle ' + hx(variant))
+        if out is None:
+            break
+        try:
+            tt = AppTitle.from_bytes(variant)
+            cps = lambda x: ','.join('%x' % ord(ch) for ch in x) or '-'
+            impl = ' '.join([cps(tt.short_desc), cps(tt.long_desc), cps(tt.publisher), hx(bytes(tt))])
+        except Exception as ex:
+            impl = 'e:' + pyenv.errname(ex)
+        if out != impl:
+            a, b = out.split(' '), impl.split(' ')
+            k = next((i for i, (x, y) in enumerate(zip(a, b)) if x != y), min(len(a), len(b)) - 1)
+            ctx.diff('corr', 'apptitle-model', dict(case, raw=variant.hex()[:80]), a[k][:100], b[k][:100], 'AppTitle: Coq model and implementation differ')
+        ctx.stat('apptitle_model')
     check(ctx, 'apptitle-canonical', case, bytes(back) == raw, raw.hex()[:80], bytes(back).hex()[:80], 'AppTitle serialise(parse(b)) != b')
 
 
@@ -440,7 +456,7 @@ def run_all(ctx, rng, n):
 
 
 def run(ctx):
-    proof = prove('C20', ['tmd', 'smdh', 'difi'], ['C20_props'], static_deps=['Proofs/CfgSaveProofs.v', 'Base/Sweep.v', 'Base/Fields.v', 'Base/PyInt.v', 'Proofs/CodecsProofs.v', 'Proofs/NandProofs.v'])
+    proof = prove('C20', ['tmd', 'smdh', 'difi'], ['C20_props'], static_deps=['Proofs/CfgSaveProofs.v', 'Proofs/AppTitleProofs.v', 'Base/Sweep.v', 'Base/Fields.v', 'Base/PyInt.v', 'Proofs/CodecsProofs.v', 'Proofs/NandProofs.v'])
     MR[0] = ModelRunner()
     try:
         run_all(ctx, ctx.rng, ctx.n(700, 30000))
